@@ -48,6 +48,8 @@ READ_CRATES = ("sst", "mani", "lsmtk")
 
 PANIC_EXC = {}
 RERR_EXC = {
+    ("lsmtk::verifier::LsmVerifier::get_cursor", "err-arm-ignored(file_manager::open_without_manager)"):
+        "location fallback: trash/<setsum> is tried, then sst/<setsum>, then trash/ again with `?`, so the final failure is the one reported",
     ("lsmtk::tree::LsmTree::explicit_unref", "discard fs::rename"):
         "a failed move leaves an orphan in sst/ (safe side); see C02.6",
     ("lsmtk::tree::LsmTree::cleanup_orphans", "discard fs::rename"):
